@@ -38,13 +38,8 @@ package polling
 //@   ensures[progress_is_instances_advanced] result0 == p.NextInstance - old(p.NextInstance)
 //@   ensures result1 != nil ==> result0 == 0
 //@   ensures p.NextInstance >= old(p.NextInstance)
-//@   ensures p.Store == old(p.Store)
+//@   ensures p.Store == old(p.Store) && storeNotBehind(p)
 //@   nooverflow
-
-//@ func (*Poller).Poll
-//@   trusted verified under C16 (Poll only ever advances NextInstance); assumed here
-//@   modifies auto
-//@   ensures p.NextInstance >= old(p.NextInstance)
 
 //@ func (*Subscriber).poll
 //@   property C20
@@ -65,3 +60,23 @@ package polling
 //@     before[wait_is_interval_plus_bounded_offset] offset >= 0 && res(Until, 1) <= 4611686018427387903 ==>
 //@        delay >= max(res(Until, 1), 0) && delay <= max(res(Until, 1), 0) + min(offset, max(res(Until, 1), 0) / 2)
 //@     before[offset_is_request_time_or_zero] offset == 0 || offset == res(Since, 1)
+
+// ---- C16: the poller stores only what it validated against its own table ----
+
+//@ func (*Poller).Poll
+//@   property C16, C20
+//@   requires storeNotBehind(p)
+//@   modifies auto
+//@   maypanic
+//@   ensures[next_instance_never_decreases] p.NextInstance >= old(p.NextInstance)
+//@   loop 1
+//@     invariant p.NextInstance >= old(p.NextInstance) && p.Store == old(p.Store) && storeNotBehind(p)
+//@   loop 2
+//@     invariant p.NextInstance >= old(p.NextInstance) && p.Store == old(p.Store) && storeNotBehind(p)
+//@   at ValidateFinalityCertificates 1
+//@     before[validates_against_own_table_and_instance] arg(2) == p.PowerTable && arg(3) == p.NextInstance && arg(1) == p.NetworkName && arg(0) == p.SignatureVerifier
+//@     before[validates_the_received_certificate] len(arg(5)) == 1 && arg(5)[0] == cert
+//@   at Put 1
+//@     before[stores_only_validated_certificates] res(ValidateFinalityCertificates, 1, 3) == nil && arg(2) == cert
+//@   at return 3
+//@     before[invalid_certificate_marks_peer_illegal] res(ValidateFinalityCertificates, 1, 3) != nil && res.Status == PollIllegal
